@@ -8,6 +8,7 @@ package header
 
 // HeaderWF: the shape invariant every decoded header satisfies; the decoders of
 // the satellite and signal cells index by it.
+//@ define HdrCells(h) = forall(k, 0, len(h.Cells), RowOK(contents(h.Cells[k]), offof(h.Cells[k]), h.CellMask, len(h.Satellites)*len(h.Signals) - 1 - k*len(h.Signals), len(h.Signals))) && h.NumSignalCells == cnthi(h.CellMask, len(h.Satellites)*len(h.Signals), len(h.Satellites)*len(h.Signals))
 //@ define HeaderWF(h) = len(h.Cells) == len(h.Satellites) && forall(i, 0, len(h.Cells), len(h.Cells[i]) == len(h.Signals)) && len(h.Satellites) <= 64 && len(h.Signals) <= 32
 
 //@ func getSatellites
@@ -90,6 +91,9 @@ package header
 //@ define hdrSatMask(s) = bits(s, 97, 64)
 //@ define hdrSigMask(s) = bits(s, 161, 32)
 //@ define hdrX(s) = cnthi(hdrSatMask(s), 64, 64) * cnthi(hdrSigMask(s), 32, 32)
+// What a decoded header is, as a function of the frame s alone (used by the message decoders).
+//@ define HdrFields(h, s) = h.MessageType == bits(s, 24, 12) && h.StationID == bits(s, 36, 12) && h.Timestamp == bits(s, 48, 30) && h.MultipleMessage == (bits(s, 78, 1) == 1) && h.IssueOfDataStation == bits(s, 79, 3) && h.SessionTransmissionTime == bits(s, 82, 7) && h.ClockSteeringIndicator == bits(s, 89, 2) && h.ExternalClockSteeringIndicator == bits(s, 91, 2) && h.GNSSDivergenceFreeSmoothingIndicator == (bits(s, 93, 1) == 1) && h.GNSSSmoothingInterval == bits(s, 94, 3) && h.SatelliteMask == hdrSatMask(s) && h.SignalMask == hdrSigMask(s) && h.CellMask == bits(s, 193, len(h.Satellites)*len(h.Signals))
+//@ define HdrLists(h) = len(h.Satellites) == cnthi(h.SatelliteMask, 64, 64) && len(h.Signals) == cnthi(h.SignalMask, 32, 32) && forall(j, 0, len(h.Satellites), 1 <= h.Satellites[j] && h.Satellites[j] <= 64 && bitof(h.SatelliteMask, 64 - h.Satellites[j]) == 1) && forall(j, 0, len(h.Satellites) - 1, h.Satellites[j] < h.Satellites[j+1]) && forall(j, 0, len(h.Signals), 1 <= h.Signals[j] && h.Signals[j] <= 32 && bitof(h.SignalMask, 32 - h.Signals[j]) == 1) && forall(j, 0, len(h.Signals) - 1, h.Signals[j] < h.Signals[j+1])
 //@ func GetMSMHeader
 //@ ensures r2 == nil ==> r0 != nil && fresh(r0) && HeaderWF(r0) && r1 == 193 + len(r0.Satellites)*len(r0.Signals) && r1 + 24 <= 8*len(bitStream) && len(r0.Satellites)*len(r0.Signals) <= 64
 //@ ensures r2 == nil ==> 0 <= r0.NumSignalCells && r0.NumSignalCells <= 64
